@@ -21,6 +21,8 @@ GROUPS = {
     "base": ["mass", "density"],
 }
 GROUP_OF = {n: g for g, ns in GROUPS.items() for n in ns}
+GROUP_OF.update({"_mass": "base", "_density": "base"})    # per-atom data behind the computed mass / density
+SET_NAMES = {g: (ns if g != "base" else ["_mass", "_density"]) for g, ns in GROUPS.items()}
 LAZY_NAMES = [n for g, ns in GROUPS.items() if g != "base" for n in ns]
 KEYS = {
     "mass.init": "base", "density.init": "base", "nsf.init": "neutron", "xsf.init": "xray",
